@@ -10,7 +10,9 @@ def check(run):
                 'parse errors must precede any write (TLC monitor); field-count warning numbers compared for header-less full scans; non-trivial = >= 2 input records and (>= 1 output row or an error)')
     run.assumptions = ['poison = a value-dependent raising expression whose own message has no digits']
     ec.run_family(run, 'C14-poison', 'Q_C14', 'R_poison', maxA=3 if quick else 4, opts={'warnings': True})
-    ec.run_family(run, 'C14-ragged', 'Q_C14rag', 'R_w2N' if not quick else 'R_q4', maxA=2 if quick else 3, opts={'warnings': True})
+    ec.run_family(run, 'C14-ragged', 'Q_C14rag', 'R_w2' if not quick else 'R_q4', maxA=2 if quick else 3, opts={'warnings': True})
+    if not quick:
+        ec.run_family(run, 'C14-ragged-with-None', 'Q_C14ragN', 'R_w2N', maxA=3, opts={'warnings': True})
     ec.run_family(run, 'C14-ragged-incl-empty-record', 'Q_C14plain', 'R_w2N', maxA=3, opts={'warnings': True})
     ec.run_family(run, 'C14-join', 'Q_C14join', 'R_poison' if quick else 'R_w2', recsB='R_w2N' if not quick else 'R_q4', maxA=2, maxB=2, opts={'warnings': True})
     ec.run_family(run, 'C14-aggregate-misuse', 'Q_C03bad', 'R_num', maxA=2)
